@@ -93,6 +93,8 @@ func consumeUnixFSData(remaining []byte, ma ipld.MapAssembler) error {
 					return protowire.ParseError(n)
 				}
 				remaining = remaining[n:]
+				// the packed run assembles the BlockSizes entry itself
+				packedBlockSizes = true
 				// count the number of varints in the array by looking at most
 				// significant bit not set
 				var blockSizeCount int64
